@@ -62,6 +62,13 @@ type rec struct {
 	X    int    `json:"x"`
 	Y    int    `json:"y"`
 	Sexp *sexpT `json:"sexp"`
+	// generic constructors / converters (op = "Ctor")
+	Ctor  string `json:"ctor"`
+	Probe *struct {
+		X   symT `json:"x"`
+		Y   symT `json:"y"`
+		Res symT `json:"res"`
+	} `json:"probe"`
 	// special operands (C09): sp = "fs" float specials, "ib" integer bounds
 	Sp string `json:"sp"`
 	Sf int    `json:"sf"` // class of the scalar operand of a container record
